@@ -15,9 +15,10 @@ import OpmVerif.Proofs.RawConsts
 import OpmVerif.Proofs.LexMirror
 import OpmVerif.Proofs.RawKw
 import OpmVerif.Proofs.Relayout
+import OpmVerif.Proofs.Deck
 
 namespace OpmVerif.Props.C01
-open OpmVerif.Lex OpmVerif.Tok OpmVerif.Scan OpmVerif.RawKw
+open OpmVerif.Lex OpmVerif.Tok OpmVerif.Scan OpmVerif.RawKw OpmVerif.Deck OpmVerif.DeckWrite
 
 def b (s : String) : Bytes := s.toUTF8.toList
 
@@ -213,6 +214,42 @@ example : (∀ t ∈ [b "'W 1'", b "2*5"], Simple t) ∧ totalWeight [b "'W 1'",
 example : parseItems demoConv demoSchema [b "'W 1'", b "2*5"] =
     some [[(.str (b "W 1"), .deck)], [(.int 5, .deck)], [(.int 5, .deck)], [(.int 9, .dflt)],
           [(.str (b "OPEN"), .dflt)], [(.dummy, .empty)], []] := by decide +kernel
+
+/-! ### splitting over INCLUDE files -/
+
+/-- `include_splice`: wherever the keyword loop (`parseState`) stands at a keyword boundary —
+any deck parsed so far, any remaining input — the lines `INCLUDE` / `'path' /` are
+equivalent to the cleaned lines of the named file spliced in front of the remaining input.
+So moving whole keywords into an INCLUDE file (and, by iterating, nested includes) does not
+change the Deck. -/
+theorem include_splice (cv : Conv) (tbl : Table) (recog : Bytes → Bool) (files : Bytes → Option Bytes)
+    (htbl : lookup tbl nameINCLUDE = some includeDef)
+    (path content : Bytes) (hfile : files path = some content)
+    (hq : ∀ c ∈ path, c ≠ 39) (hsafe : LineSafe (quoted path))
+    (fuel : Nat) (deck : DeckT) (rest : List Bytes) :
+    parseLoop cv tbl recog files (fuel + 1) deck (nameINCLUDE :: recordLine [quoted path] :: rest) =
+      parseLoop cv tbl recog files fuel deck (splitLines (fastClean (content ++ [10])) ++ rest) :=
+  OpmVerif.Deck.include_splice cv tbl recog files htbl path content hfile hq hsafe fuel deck rest
+
+def demoTable : Table :=
+  [(b "INCLUDE", includeDef),
+   (b "DIMENS", ⟨.fixed 1, false, none, [[⟨.int, false, none⟩, ⟨.int, false, none⟩, ⟨.int, false, none⟩]], false, false⟩),
+   (b "OIL", ⟨.fixed 0, false, none, [], false, false⟩)]
+
+def demoFiles (p : Bytes) : Option Bytes := if p = b "/d/grid.inc" then some (b "DIMENS\n 10 10 3 / -- from the file") else none
+
+example : lookup demoTable nameINCLUDE = some includeDef ∧ demoFiles (b "/d/grid.inc") ≠ none ∧
+    (∀ c ∈ b "/d/grid.inc", c ≠ 39) := by decide +kernel
+
+example : LineSafe (quoted (b "/d/grid.inc")) :=
+  ⟨(atomic_quoted _ (by decide +kernel)).1, by decide +kernel, by decide +kernel, by decide +kernel⟩
+
+example : parseDeckText demoConv demoTable (fun _ => false) demoFiles 50 (b "OIL\nINCLUDE\n '/d/grid.inc' /\nOIL\n") =
+          parseDeckText demoConv demoTable (fun _ => false) demoFiles 50 (b "OIL\nDIMENS\n 10 10 3 /\nOIL\n") := by
+  decide +kernel
+
+example : (parseDeckText demoConv demoTable (fun _ => false) demoFiles 50 (b "OIL\nINCLUDE\n '/d/grid.inc' /\nOIL\n")).map
+    (·.map (·.name)) = some [b "OIL", b "DIMENS", b "OIL"] := by decide +kernel
 
 /-! ### all compositions of rewrites -/
 
